@@ -623,3 +623,224 @@ func TestVerifC30Store(t *testing.T) {
 			}
 		})
 }
+
+// ---------------------------------------------------------------------------
+// Large-value regime: cumulative payouts around 2^63, 2^64 and 2^128 (payouts are
+// uint256 on chain; 2^63 base units are 9.2 tokens at 18 decimals). All cheques here
+// are genuine and arrive from their issuer, so only "raises the issuer's cumulative
+// payout" and the credited totals are at stake; the reference is kept in big.Int.
+// ---------------------------------------------------------------------------
+
+type c30Big struct {
+	desc   string
+	issuer *c30Actor
+	payout *big.Int
+	sc     chequePkg.SignedCheque
+}
+
+var (
+	c30BigOnce sync.Once
+	c30BigMenu []c30Big
+)
+
+func c30Pow2(n uint, add int64) *big.Int {
+	v := new(big.Int).Lsh(big.NewInt(1), n)
+	return v.Add(v, big.NewInt(add))
+}
+
+func c30BigBuild(w *c30World) {
+	vals := []struct {
+		n string
+		v *big.Int
+	}{
+		{"5", big.NewInt(5)}, {"11", big.NewInt(11)},
+		{"2^63-1", c30Pow2(63, -1)}, {"2^63", c30Pow2(63, 0)}, {"2^63+1", c30Pow2(63, 1)},
+		{"2^64-1", c30Pow2(64, -1)}, {"2^64", c30Pow2(64, 0)}, {"2^64+10", c30Pow2(64, 10)}, {"2^128", c30Pow2(128, 0)},
+	}
+	mk := func(is *c30Actor, n string, v *big.Int) {
+		c := chequePkg.Cheque{Recipient: w.self.addr, Beneficiary: is.addr, CumulativePayout: new(big.Int).Set(v)}
+		sig, err := is.signer.Sign(&c)
+		if err != nil {
+			panic(err)
+		}
+		c30BigMenu = append(c30BigMenu, c30Big{desc: is.name + ":" + n, issuer: is, payout: new(big.Int).Set(v), sc: chequePkg.SignedCheque{Cheque: c, Signature: sig}})
+	}
+	for _, v := range vals {
+		mk(w.p, v.n, v.v)
+	}
+	mk(w.q, "11", big.NewInt(11))
+	mk(w.q, "2^64+10", c30Pow2(64, 10))
+}
+
+func c30BigMenu0() []c30Big {
+	w := c30World0()
+	c30BigOnce.Do(func() { c30BigBuild(w) })
+	return c30BigMenu
+}
+
+func c30BigStr(m map[string]*big.Int) string {
+	return fmt.Sprintf("P=%s Q=%s", m["P"], m["Q"])
+}
+
+func TestVerifC30LargeStore(t *testing.T) {
+	w := c30World0()
+	menu := c30BigMenu0()
+	depth := mc.Pick(4, 5)
+	var names []string
+	for _, c := range menu {
+		names = append(names, c.desc)
+	}
+	mc.Run(t, mc.Config{ID: "C30", Name: "C30-large-store", MaxDev: -1, Params: map[string]interface{}{"depth": depth, "cheques": names}},
+		func(x *mc.X) {
+			cs := chequePkg.NewChequeStore(mock.NewStateStore(), w.self.addr, chequePkg.RecoverCheque, c30ChainID)
+			max := map[string]*big.Int{"P": new(big.Int), "Q": new(big.Int)}
+			total := map[string]*big.Int{"P": new(big.Int), "Q": new(big.Int)}
+			acc, big63 := 0, false
+			for step := 0; step < depth; step++ {
+				c := &menu[x.Choose(len(menu))]
+				sc := c.sc
+				sc.CumulativePayout = new(big.Int).Set(c.payout)
+				amt, err := cs.ReceiveCheque(context.Background(), &sc)
+				h := max[c.issuer.name]
+				raises := c.payout.Cmp(h) > 0
+				diff := new(big.Int).Sub(c.payout, h)
+				x.Logf("store receives %s (last accepted %s) -> amount=%s err=%v", c.desc, h, c30Int(amt), err)
+				if new(big.Int).Abs(diff).BitLen() > 63 {
+					big63 = true
+					x.Tag("distance-to-last-accepted-needs-more-than-63-bits")
+				}
+				if err == nil {
+					x.Check(raises, "store-accepted-not-raising", "step %d: cheque %s accepted although the last accepted payout is %s", step+1, c.desc, h)
+					x.Check(amt != nil && amt.Cmp(diff) == 0, "store-amount-is-not-the-raise", "step %d: %s credited %s, raise is %s", step+1, c.desc, c30Int(amt), diff)
+					max[c.issuer.name] = new(big.Int).Set(c.payout)
+					total[c.issuer.name].Add(total[c.issuer.name], amt)
+					acc++
+					x.Outcome("accepted")
+				} else {
+					x.Check(!raises, "valid-cheque-refused", "step %d: %s refused (%v) although it raises the last accepted payout %s", step+1, c.desc, err, h)
+					x.Outcome("refused-not-raising")
+				}
+				for _, a := range []*c30Actor{w.p, w.q} {
+					lc, err := cs.LastReceivedCheque(a.addr)
+					if err != nil && !errors.Is(err, chequePkg.ErrNoCheque) {
+						x.Broken("LastReceivedCheque: %v", err)
+					}
+					x.Check(lc.CumulativePayout.Cmp(max[a.name]) == 0 && total[a.name].Cmp(max[a.name]) == 0, "store-credit-differs-from-highest-accepted-payout",
+						"after step %d: issuer %s: stored %s, credited in total %s, highest accepted %s", step+1, a.name, c30Int(lc.CumulativePayout), total[a.name], max[a.name])
+				}
+				if acc >= 2 && big63 {
+					x.Nontrivial()
+				}
+				if x.Seen(c30BigStr(max)+fmt.Sprint(acc >= 2, big63), depth-step-1) {
+					return
+				}
+			}
+		})
+}
+
+func TestVerifC30LargeService(t *testing.T) {
+	w := c30World0()
+	menu := c30BigMenu0()
+	depth := mc.Pick(4, 5)
+	var names []string
+	for _, c := range menu {
+		names = append(names, c.desc)
+	}
+	extra := []string{"refresh", "restart"}
+	mc.Run(t, mc.Config{ID: "C30", Name: "C30-large-service", MaxDev: -1, Params: map[string]interface{}{"depth": depth, "cheques": names, "other_ops": extra,
+		"senders": "every cheque arrives from its registered issuer"}},
+		func(x *mc.X) {
+			s := c30Fresh(x, w, 0, 0)
+			defer func() { s.close() }()
+			max := map[string]*big.Int{"P": new(big.Int), "Q": new(big.Int)}
+			total := map[common.Address]*big.Int{w.p.addr: new(big.Int), w.q.addr: new(big.Int)}
+			acc, big63 := 0, false
+			x.Logf("start: new node")
+			for step := 0; step < depth; step++ {
+				op := x.Choose(len(menu) + len(extra))
+				if op >= len(menu) {
+					if extra[op-len(menu)] == "refresh" {
+						x.NoErr(s.svc.trafficInit(), "trafficInit")
+					} else {
+						s.close()
+						s.start(x, false)
+					}
+					x.Logf("%s", extra[op-len(menu)])
+				} else {
+					c := &menu[op]
+					sc := c.sc
+					sc.CumulativePayout = new(big.Int).Set(c.payout)
+					n0 := len(s.store.calls)
+					err := s.svc.ReceiveCheque(context.Background(), c.issuer.overlay, &sc)
+					h := max[c.issuer.name]
+					raises := c.payout.Cmp(h) > 0
+					x.Logf("%s sends %s (last accepted %s) -> err=%v", c.issuer.name, c.desc, h, err)
+					if new(big.Int).Abs(new(big.Int).Sub(c.payout, h)).BitLen() > 63 {
+						big63 = true
+						x.Tag("distance-to-last-accepted-needs-more-than-63-bits")
+					}
+					if err == nil {
+						s.pub.wait(x, 1)
+						x.Check(raises, "accepted-not-raising", "step %d: cheque %s accepted although the highest accepted payout of %s is %s", step+1, c.desc, c.issuer.name, h)
+						max[c.issuer.name] = new(big.Int).Set(c.payout)
+						acc++
+						x.Outcome("accepted")
+					} else {
+						x.Check(!raises, "valid-cheque-refused", "step %d: %s refused (%v) although it raises the highest accepted payout %s", step+1, c.desc, err, h)
+						x.Outcome("refused-not-raising")
+					}
+					for _, call := range s.store.calls[n0:] {
+						if call.err == nil {
+							x.Check(call.amount != nil && call.amount.Sign() > 0, "accepted-cheque-credits-nothing", "step %d: store accepted %s with amount %s", step+1, c.desc, c30Int(call.amount))
+							total[call.issuer].Add(total[call.issuer], call.amount)
+						}
+					}
+				}
+				s.pub.idle(x)
+				when := fmt.Sprintf("after step %d", step+1)
+				tcs, err := s.svc.TrafficCheques()
+				x.NoErr(err, "TrafficCheques")
+				sum := new(big.Int)
+				for _, a := range []*c30Actor{w.p, w.q} {
+					h := max[a.name]
+					sum.Add(sum, h)
+					x.Check(total[a.addr].Cmp(h) == 0, "credited-total-differs-from-highest-accepted-payout", "%s: amounts credited for issuer %s add up to %s, highest accepted payout is %s", when, a.name, total[a.addr], h)
+					lc, err := s.svc.LastReceivedCheque(a.overlay)
+					if err != nil && !errors.Is(err, chequePkg.ErrNoCheque) {
+						x.Broken("Service.LastReceivedCheque: %v", err)
+					}
+					x.Check(lc.CumulativePayout.Cmp(h) == 0, "service-last-cheque-differs", "%s: Service.LastReceivedCheque(%s) = %s, want %s", when, a.name, c30Int(lc.CumulativePayout), h)
+					s.svc.trafficPeers.trafficLock.Lock()
+					mem := new(big.Int)
+					if t := s.svc.trafficPeers.trafficPeers[a.addr.String()]; t != nil {
+						mem.Set(t.transferChequeTraffic)
+					}
+					s.svc.trafficPeers.trafficLock.Unlock()
+					key := "credited-to-wrong-peer-record"
+					if mem.Cmp(h) > 0 {
+						key = "credited-more-than-highest-accepted-payout"
+					}
+					x.Check(mem.Cmp(h) == 0, key, "%s: peer %s's record shows received settlements %s, highest accepted payout of that issuer is %s", when, a.name, mem, h)
+					for _, tc := range tcs {
+						if tc.Peer.Equal(a.overlay) {
+							x.Check(tc.ReceivedSettlements.Cmp(mem) == 0, "trafficcheques-differs-from-record", "%s: TrafficCheques shows %s for %s, record holds %s", when, tc.ReceivedSettlements, a.name, mem)
+						}
+					}
+					sent, err := s.svc.TotalSent(a.overlay)
+					x.NoErr(err, "TotalSent")
+					out, err := s.svc.TransferTraffic(a.overlay)
+					x.NoErr(err, "TransferTraffic")
+					x.Check(new(big.Int).Sub(sent, out).Cmp(h) == 0, key, "%s: TotalSent(%s)-TransferTraffic(%s) = %s, highest accepted payout %s", when, a.name, a.name, new(big.Int).Sub(sent, out), h)
+				}
+				ti, err := s.svc.TrafficInfo()
+				x.NoErr(err, "TrafficInfo")
+				x.Check(ti.ReceivedTraffic.Cmp(sum) == 0, "credited-more-than-highest-accepted-payout", "%s: TrafficInfo.ReceivedTraffic=%s, highest accepted payouts add up to %s", when, ti.ReceivedTraffic, sum)
+				if acc >= 2 && big63 {
+					x.Nontrivial()
+				}
+				if x.Seen(s.dump(x)+" | "+c30BigStr(max)+fmt.Sprint(acc >= 2, big63), depth-step-1) {
+					return
+				}
+			}
+		})
+}
